@@ -42,6 +42,8 @@ def justifiedB (ch : Chain) (f : IP) : Bool :=
   -- ConsumptionOptional) or an output marked MustConsume
   (f.recvTypes.any fun t => ch.any fun g => g.inc && g.pos > f.pos && g.c.ret.contains t && !g.c.consOpt.contains t) ||
   (f.inTypes.any fun t => ch.any fun g => g.inc && g.pos < f.pos && g.c.out.contains t && g.c.mustConsume.contains t) ||
+  -- a fallible injector's terminal error reaches whoever receives error above it
+  (f.c.cls == .fallibleInjectorFunc && ch.any fun g => g.inc && g.pos < f.pos && g.recvTypes.contains tError) ||
   (ch.any fun g => g.inc && (
       (g.inTypes.any fun t => nearestDownSource ch g.pos t == some f.pos) ||
       (g.c.byp.any fun t => nearestDownSource ch (invokePos ch) (remapT g.bypassRmap t) == some f.pos) ||
@@ -57,13 +59,34 @@ def mustConsumeOKB (ch : Chain) : List Nat :=
       t != tUnused && f.c.out.contains t &&
       !(ch.any fun g => g.inc && g.pos > f.pos && g.inTypes.contains t && nearestDownSource ch g.pos t == some f.pos)).map (·.c.id)
 
-/-- C01 (Loose clause): an interface input is remapped to another type only when the nearest included
-    source of that type is marked Loose for the interface -/
-def looseOKB (ch : Chain) : List Nat :=
-  (ch.filter fun g => g.inc && (g.c.inp.filter (· != tNoType)).any fun t =>
+/-- C01 (Loose clause): the interface inputs `(consumer id, interface, concrete type)` of included
+    providers that are satisfied by another type although the nearest included source of that type is not
+    marked Loose for the interface -/
+def looseBad (ch : Chain) : List (IP × Ty × Ty) :=
+  (ch.filter (·.inc)).flatMap fun g =>
+    ((g.c.inp.filter (· != tNoType)).filterMap fun t =>
       let r := remapT g.downRmap t
-      r != t && (match nearestDownSource ch g.pos r with
-                 | some p => !((ch.getD p default).c.loose.contains t)
-                 | none => true)).map (·.c.id)
+      if r == t then none else
+      match nearestDownSource ch g.pos r with
+      | some p => if (ch.getD p default).c.loose.contains t then none else some (g, t, r)
+      | none => some (g, t, r))
+
+/-- known finding F5: such an input for which an earlier included provider of the concrete type IS
+    marked Loose for the interface (the match was legitimate, a later non-Loose provider of the same
+    type shadows the value) -/
+def isF5 (ch : Chain) (x : IP × Ty × Ty) : Bool :=
+  ch.any fun f => f.inc && f.pos < x.1.pos && f.c.out.contains x.2.2 && f.c.loose.contains x.2.1
+
+def looseF5B (ch : Chain) : List Nat := ((looseBad ch).filter (isF5 ch)).map (·.1.c.id)
+def looseOKB (ch : Chain) : List Nat := ((looseBad ch).filter fun x => !isF5 ch x).map (·.1.c.id)
+
+/-- an unjustified provider that is explained by F5: it is the Loose provider some included consumer's
+    interface input was matched with -/
+def unjustifiedF5 (ch : Chain) (f : IP) : Bool :=
+  (looseBad ch).any fun x => isF5 ch x && f.pos < x.1.pos && f.c.out.contains x.2.2 && f.c.loose.contains x.2.1
+
+def unjustifiedSplit (ch : Chain) : List Nat × List Nat :=
+  let bad := ch.filter fun f => f.inc && !justifiedB ch f
+  ((bad.filter fun f => !unjustifiedF5 ch f).map (·.c.id), (bad.filter (unjustifiedF5 ch)).map (·.c.id))
 
 end Nject
